@@ -217,6 +217,31 @@ def _repl_diverged_only(component, script, impl, problems):
     return bad if bad and len(bad) == len(problems) else None
 
 
+def kf_repl_partial_reapplied(component, script, impl, problems):
+    """KF-C13-partial-batch seen end to end: one replicated apply was made to fail once (`failapply`; the replica entered ERROR
+    for it); the entries of that batch in front of the failed one had been applied but not counted, and the retransmission
+    applied them again. Everything converged; the only problem is that re-application; no transaction in the history."""
+    if component != 'repl' or not problems or not all(p.startswith('not-exactly-once:') for p in problems):
+        return False
+    if not any(l.startswith('failapply ') for l in script):
+        return False
+    multi, _ = _repl_seq_layout(script)
+    aw = _repl_awaits(script, impl)
+    return not multi and bool(aw) and all(v == 'converged' for _, _, v, _ in aw) and any(f.get('othererr', 0) >= 1 for _, _, _, f in aw)
+
+
+def kf_repl_once_shared_seq(component, script, impl, problems):
+    """D29 seen from the replica's engine: the history contains a transaction with >= 2 operations (entries sharing one number);
+    the batch that contains it is abandoned at the second entry with that number, AFTER the entries in front of it were handed to
+    the engine, and every retransmission applies those again: the replica is stuck below the transaction (verdict D29, gaps inside
+    batches) and the only other problem is that re-application."""
+    if component != 'repl' or not problems or not all(p.startswith('not-exactly-once:') for p in problems):
+        return False
+    multi, _ = _repl_seq_layout(script)
+    bad = [f for _, _, v, f in _repl_awaits(script, impl) if v == 'diverged']
+    return bool(multi) and bool(bad) and all(f.get('finding') == 'D29' and f.get('gapin', 0) > 0 and f.get('txat') in multi for f in bad)
+
+
 def kf_repl_tx_shared_seq(component, script, impl, problems):
     """D29: the history contains a transaction with >= 2 operations; the replica's cursor is stuck below that
     transaction's sequence number, the batch the primary sends for that cursor contains it (txat), and the replica reported
